@@ -401,7 +401,7 @@ def stdlib_handlers(statable=False):
     return h
 
 
-def cacher_history(idx, stdlib, headers, between=None, recount_headers=None, extra=None, keep_memory=False):
+def cacher_history(idx, stdlib, headers, between=None, recount_headers=None, extra=None, keep_memory=False, monitor_first=False):
     """One file through two lives of a FileCacher on one model disk, through the public accessors only: a cold request (nothing in
     memory, nothing on disk), then `between(fs, state)`, then the same requests with nothing in memory (a new process) — what is left
     is the cache directory.  Returns (fs, paths); a path's result is (headers1, monitor1, headers2, monitor2); the calls recorded are
@@ -440,15 +440,24 @@ def cacher_history(idx, stdlib, headers, between=None, recount_headers=None, ext
         fs.files.clear()
         state["phase"] = 1
         state.pop("changed", None)
-        r1 = it.call_function(fa, {"__pos__": [PATH]}, "self")
-        m1 = it.call_function(fm, {"__pos__": [PATH]}, "self")
+        if monitor_first:
+            # (the cold request is for the line monitor: the other of the two cold paths)
+            m1 = it.call_function(fm, {"__pos__": [PATH]}, "self")
+            r1 = it.call_function(fa, {"__pos__": [PATH]}, "self")
+        else:
+            r1 = it.call_function(fa, {"__pos__": [PATH]}, "self")
+            m1 = it.call_function(fm, {"__pos__": [PATH]}, "self")
         if between:
             between(fs, state, it)
         state["phase"] = 2
         if not keep_memory:
             it.store["self.pathed_lines_and_headers"] = {}   # a new process: nothing in memory
-        r2 = it.call_function(fa, {"__pos__": [PATH]}, "self")
-        m2 = it.call_function(fm, {"__pos__": [PATH]}, "self")
+        if monitor_first:
+            m2 = it.call_function(fm, {"__pos__": [PATH]}, "self")
+            r2 = it.call_function(fa, {"__pos__": [PATH]}, "self")
+        else:
+            r2 = it.call_function(fa, {"__pos__": [PATH]}, "self")
+            m2 = it.call_function(fm, {"__pos__": [PATH]}, "self")
         return r1, m1, r2, m2
 
     it = Interp(idx, types={"self": "FileCacher", "self.cache": "Cache"}, inline_all={"FileCacher", "Cache"}, handlers=h, unknown_calls="residual")
